@@ -1,6 +1,6 @@
 (* C13 — JPEG Lossless streams and decoders conform to T.81 Annex H (an independent codec
    written from the standard agrees). Property theorems only.
-   (To be moved to Props/C13.v by the integrator.) *)
+    *)
 From V Require Import Common.Base JpegLL.JllBits JpegLL.JllHuff JpegLL.JllModel JpegLL.JllT81
   JpegLL.JllProofsBits JpegLL.JllProofsHuff JpegLL.JllProofs JpegLL.JllProofsRT JpegLL.JllProofsT81.
 
